@@ -465,6 +465,12 @@ class PSBaseParser:
             self._parse1 = self._parse_string_cr
             return i + 1
 
+        elif c != b"\n":
+            # not an escape sequence: the backslash alone is ignored and the
+            # character is read as itself (PDF 32000-1:2008, 7.3.4.2)
+            self._parse1 = self._parse_string
+            return i
+
         # default action
         self._parse1 = self._parse_string
         return i + 1
